@@ -91,6 +91,16 @@ inline MiniProbe mini_probe(const MiniEngine& e, const J& c) {
             std::to_string(WTERMSIG(st));
         return pr;
     }
+    if (WIFEXITED(st) && WEXITSTATUS(st) == 66) {
+        pr.crashed = true;
+        pr.key = e.prop + "/race/tsan";
+        pr.detail = "ThreadSanitizer reported a data race";
+        for (auto pos = pr.err.find("WARNING: ThreadSanitizer"); pos != std::string::npos;) {
+            pr.detail = pr.err.substr(pos, pr.err.find('\n', pos) - pos);
+            break;
+        }
+        return pr;
+    }
     if (WIFEXITED(st) && WEXITSTATUS(st) != 0) {
         pr.crashed = true;
         pr.key = e.prop + "/crash/" +
